@@ -313,7 +313,10 @@ CHECK_DEADLOCK FALSE
         pos, clauses = lst[0]
         cl = ",".join(sorted(x.strip().strip('"') for x in clauses.strip("{}").split(",")))
         ev = t["ev"][pos - 1]
-        if t["what"][0] == "twin-spellings":
+        allcl = {x.strip().strip('"') for _, c in lst for x in c.strip("{}").split(",")}
+        if t["what"][0] == "twin-spellings" and allcl <= {"C12-written-then-found", "C12-single-and-multi-key-operations-agree-on-placement"}:
+            # (the finding is about WHERE the two spellings live -- each still goes to the server placement gives for it; a key
+            # sent anywhere else is another matter and is reported as such below)
             rep.violation("C12/str-and-bytes-spellings-of-one-key-are-placed-on-different-servers",
                           f"HashClient with {t['what'][1]} servers: a key written as str is not found / deleted when addressed as the equal bytes "
                           f"(event {pos} {ev.get('op')}: {cl}): the routing key is hashed as given, bytes through their repr",
